@@ -749,6 +749,40 @@ fn check_parts(start: &gen::Start, actions: &[Action], progs: &[Prog], aux: u64,
             st.bump("exchange_scenarios");
         }
     }
+    // sibling scenario below the *start position itself* after three and after seven shuffling turns:
+    // there the positions that come round again include the very first entry of the history
+    if let gen::Start::Pos(_) = start {
+        let sels: Vec<u16> = progs.iter().flat_map(|p| p.phase1.iter().chain(p.phase2.iter())).flat_map(|o| if let Op::Walk(w) = o { w.clone() } else { vec![] }).chain([aux as u16 ^ 0x5a5a, 31337]).collect();
+        let mk0 = || fresh_root(start, &[]).map(Arc::new);
+        for turns in [3usize, 7] {
+            let scratch = match mk0() {
+                Some(s) if s.is_play_phase() && s.is_terminal().is_none() => s,
+                _ => break,
+            };
+            let more = guard(|| shuffle_on(&scratch, &sels, turns)).unwrap_or_default();
+            if more.is_empty() {
+                continue;
+            }
+            let build = |fresh: Arc<GameState>| -> GameState {
+                let mut g = (*fresh).clone();
+                for a in more.iter() {
+                    g = g.take_action(a);
+                }
+                g
+            };
+            let sroot = build(mk0().unwrap());
+            let paths = guard(|| sibling_paths(&sroot, 6)).unwrap_or_default();
+            if paths.len() < 2 {
+                continue;
+            }
+            let con = guard(|| siblings_run(&build(mk0().unwrap()), &paths, 60, true)).map_err(|p| Fail::new("C18:concurrent_panic", p))?;
+            let seq = guard(|| siblings_run(&build(mk0().unwrap()), &paths, 60, false)).map_err(|p| Fail::new("C18:sequential_panic", p))?;
+            for (i, (a, b)) in seq.iter().zip(con.iter()).enumerate() {
+                ensure!(a == b, "C18:transcript", "sibling scenario below the start position after {} shuffling turns, state {} of {}: states of one turn queried repeatedly, each by its own thread at the same time, gave a transcript (hash {:#x}, {} items) that differs from the same queries on one thread (hash {:#x}, {} items); shuffle {}; siblings: {}", turns, i, seq.len(), b.0, b.1, a.0, a.1, actions_text(&more), paths.iter().map(|p| actions_text(p)).collect::<Vec<_>>().join(" | "));
+            }
+            st.bump("sibling_scenarios_below_the_start_position");
+        }
+    }
     // sibling scenario below the root after some shuffling turns
     if root.is_play_phase() && root.is_terminal().is_none() {
         let sels: Vec<u16> = c.progs.iter().flat_map(|p| p.phase1.iter().chain(p.phase2.iter())).flat_map(|o| if let Op::Walk(w) = o { w.clone() } else { vec![] }).chain([c.game.aux as u16, 40503]).collect();
